@@ -84,7 +84,11 @@ class PartHandler(PartFlowController):
         self._next_cycle_time_offset += offset
 
     def notify_upstream_of_available_space(self):
-        self._set_waiting_for_part(True)
+        # Only an empty, operational device starts waiting for a Part;
+        # the notification can also be sent while busy or shut down
+        # (input unblocked, resources became available).
+        if self.is_operational() and self._part == None and self._output == None:
+            self._set_waiting_for_part(True)
         super().notify_upstream_of_available_space()
 
     def space_available_downstream(self):
